@@ -155,6 +155,7 @@ type hist struct {
 	tables []*hTable
 	units  []hUnit
 	ext    map[string][]string // f32/f64/tz/civil assoc entries
+	bias   int64               // large-offset histories: every offset past a file's head FDE is moved up by this much
 }
 
 func (h *hist) line(p string, extra ...string) string {
@@ -166,6 +167,9 @@ func (h *hist) line(p string, extra ...string) string {
 		us = append(us, u.str())
 	}
 	s := fmt.Sprintf("hist cfg=%s p=%s tables=%s units=%s", h.cfg, p, strings.Join(ts, ";"), strings.Join(us, ";"))
+	if h.bias != 0 {
+		s += fmt.Sprintf(" bias=%d", h.bias)
+	}
 	for _, k := range []string{"f32", "f64", "tz", "civil"} {
 		if len(h.ext[k]) > 0 {
 			s += " " + k + "=" + strings.Join(h.ext[k], ",")
@@ -563,6 +567,10 @@ func genStmt(r *RNG, kw string, o histOpts, ts uint32) *hStmt {
 func genHistory(r *RNG, o histOpts, cfg string) *hist {
 	h := &hist{cfg: cfg, ext: map[string][]string{}}
 	h.tables = genTables(r, o)
+	if r.Chance(1, 5) {
+		// binlog files beyond 2 GiB / close to the 4 GiB limit of the 32-bit next_position field
+		h.bias = []int64{1<<31 - 200, 1<<31 - 20, 1 << 31, 3 << 30, 1<<32 - 1<<21, int64(r.Intn(1 << 31))}[r.Intn(6)]
+	}
 	nu := r.Range(1, o.maxUnits)
 	ts := uint32(1600000000 + r.Intn(1000))
 	fileNo := 1
